@@ -38,7 +38,8 @@ ASSUMPTIONS = [
     "multi-target requests under forbid_creation_of='*' may be refused (the merged result is a created type)",
 ]
 REQUIRED = {"requests": 300, "plugins_ran_checked": 300, "loads_checked": 100, "saves_checked": 100,
-            "expected_errors": 30, "components_checked": 100, "multi_sibling_cases": 10, "two_frontend_cases": 50}
+            "expected_errors": 30, "components_checked": 100, "multi_sibling_cases": 10, "two_frontend_cases": 50,
+            "multi_partial_cases": 30, "forbid_as_string_cases": 15}
 UNIT_TIMEOUT = 1200
 ORDER = {"NEVER": 0, "EXPLICIT": 1, "TARGET": 2, "ALWAYS": 3}
 
@@ -162,8 +163,16 @@ def gen_case(seed, idx):
     srcs, t0, t1 = gen.gen_sources(rng, 1, nmax=6)
     for s in srcs:
         s["cuts"] = gen.gen_cuts(rng, s["rows"], t0, t1, 1, max_inner=3)
-    stratum = rng.choice(["free", "free", "multi_sibling"])
-    if stratum == "multi_sibling":
+    stratum = rng.choice(["free", "free", "free", "multi_sibling", "multi_sibling", "multi_partial"])
+    if stratum == "multi_partial":
+        # multi-output plugin with per-output policies: the needed output is EXPLICIT / NEVER (not saved by the
+        # request), its sibling ALWAYS / TARGET and usually not stored yet; a data type whose name contains the
+        # name of another one ("mab" / "ma") for forbid_creation_of given as a plain string
+        plugins = [{"name": "m", "type": "multi", "deps": ["ev"],
+                    "save_when": {"ma": rng.choice(["EXPLICIT", "NEVER", "EXPLICIT"]), "mb": rng.choice(["ALWAYS", "ALWAYS", "TARGET"])}},
+                   {"name": "mab", "type": "row", "deps": ["ma"], "save_when": rng.choice(["ALWAYS", "TARGET", "EXPLICIT"])},
+                   {"name": "top", "type": "row", "deps": ["mb"], "save_when": "TARGET"}]
+    elif stratum == "multi_sibling":
         plugins = [{"name": "m", "type": "multi", "deps": ["ev"],
                     "save_when": {"ma": rng.choice(["ALWAYS", "TARGET", "EXPLICIT"]), "mb": rng.choice(["ALWAYS", "TARGET"])}},
                    {"name": "top", "type": rng.choice(["loop", "loop", "filter"]), "deps": ["ma", "mb"],
@@ -199,7 +208,16 @@ def gen_case(seed, idx):
         fes.append(fe)
     if stratum == "multi_sibling":
         fes[0]["stored"] = sorted(set(fes[0]["stored"]) - {"ma"} | {"mb"})
-    tgt = rng.choice(types if stratum != "multi_sibling" else ["top", "top", "ma", "top2"] if "top2" in types else ["top", "ma"])
+    if stratum == "multi_partial":
+        for fe in fes:
+            st_ = set(fe["stored"]) - {"ma"}
+            if rng.random() < 0.8:
+                st_ -= {"mb", "top"}
+            if rng.random() < 0.7:
+                st_ |= {srcs[0]["name"]}
+            fe["stored"] = sorted(st_)
+    tgt = rng.choice(types if stratum == "free" else ["ma", "ma", "mab", "top"] if stratum == "multi_partial"
+                     else ["top", "top", "ma", "top2"] if "top2" in types else ["top", "ma"])
     targets = [tgt]
     if rng.random() < 0.2:
         same = [t for t in types if t != tgt and kinds[t] == kinds[tgt] and fields[t] != fields[tgt]
@@ -209,7 +227,15 @@ def gen_case(seed, idx):
     save = sorted(rng.sample(types, rng.randint(0, 2))) if rng.random() < 0.5 else []
     modifier = rng.choice(["none", "none", "none", "time_range", "selection", "keep_columns", "fuzzy_for", "allow_incomplete"])
     forbid = rng.choice([[], [], [], ["*"], [rng.choice(types)]])
+    if stratum == "multi_partial":
+        modifier = rng.choice(["none", "time_range", "time_range", "selection", "keep_columns", "fuzzy_for", "allow_incomplete"])
+        forbid = rng.choice([[], [], ["mab"], ["mab"], ["top"], ["mb"]])
+    # forbid_creation_of may be given as a tuple, a list or (one type) a plain string
+    form = rng.choice(["tuple", "tuple", "list", "str"])
+    if form == "str" and len(forbid) != 1:
+        form = "tuple"
     return {"spec": spec, "frontends": fes, "targets": targets, "save": save, "modifier": modifier, "forbid": forbid,
+            "forbid_form": form,
             "processor": rng.choice(["single_thread", "threaded_mailbox"]), "lazy": rng.random() < 0.5,
             "t0": t0, "t1": t1, "stratum": stratum}
 
@@ -261,7 +287,9 @@ def run_case(case):
         cfg = {"processor": case["processor"], "allow_lazy": case["lazy"], "max_messages": 50, "timeout": 60}
         ctx_opts = {}
         if case["forbid"]:
-            ctx_opts["forbid_creation_of"] = tuple(case["forbid"])
+            ff = case.get("forbid_form", "tuple")
+            ctx_opts["forbid_creation_of"] = (case["forbid"][0] if ff == "str" else list(case["forbid"]) if ff == "list"
+                                              else tuple(case["forbid"]))
         if case["modifier"] == "fuzzy_for":
             ctx_opts["fuzzy_for"] = (case["spec"]["sources"][0]["name"],)
         if case["modifier"] == "allow_incomplete":
@@ -396,6 +424,10 @@ def run_case(case):
         hrun.rm(root)
     if case["stratum"] == "multi_sibling":
         cnt["multi_sibling_cases"] = 1
+    if case["stratum"] == "multi_partial":
+        cnt["multi_partial_cases"] = 1
+    if case.get("forbid_form") == "str":
+        cnt["forbid_as_string_cases"] = 1
     if len(case["frontends"]) == 2:
         cnt["two_frontend_cases"] = 1
     nontrivial = bool(ref["runs"] or ref["loads"])
